@@ -469,6 +469,12 @@ Definition expand_cmd (acc : nat * list sexp) (c : sexp) : nat * list sexp :=
       let nb := length (filter is_next_id cons) in
       let '(_, ne, rend) := eb_render 8 n0 nb n0 ch (1%nat, 0%nat, []) in
       (n0 + nb + ne, out ++ cons ++ rend)%nat
+  | 19%Z =>
+      (* a real <Suspense/> / <Transition/>: one id at construction; if its children read a
+         LocalResource the chunk is sent incomplete, under that id *)
+      (S n0,
+       out ++ Lst [Num 0%Z] ::
+              (if as_bool (nth_s 3 c) then [Lst [Num 5%Z; Lst [Num 1%Z; snat n0]]] else []))
   | _ => (n0, out ++ [c])
   end.
 (** the script of a case in primitive commands *)
